@@ -13,7 +13,7 @@ func init() {
 		"verdicts compared with the reference model (length in characters); non-trivial = differs from the base document; distinct = (source hash, document)"
 }
 
-var c06Devs = []string{"NULLABLE_DEF_UNENFORCED", "LEN_BYTES", "ZERO_LIMIT_IGNORED"}
+var c06Devs = []string{"NULLABLE_DEF_UNENFORCED", "LEN_BYTES", "ZERO_LIMIT_IGNORED", "ENUM_SIBLING_CONSTRAINTS_IGNORED", "FORMAT_STRING_CONSTRAINTS_IGNORED", "PATTERN_CR_DROPPED"}
 
 func c06(ctx *Ctx) {
 	runBehaviour(ctx, behaviour{Name: "str", Cases: c06Cases(ctx.Level), K: 1, Devs: c06Devs})
@@ -80,6 +80,30 @@ func c06Cases(level int) []SCase {
 				}
 			}
 		}
+	}
+	// length limits / pattern stated next to an enum or next to a format that is carried by a Go type: the text of a listed value /
+	// of a well-formed date still has to satisfy them; a pattern containing a carriage return
+	for _, sp := range []struct {
+		name string
+		l    J
+	}{
+		{"string-enum,min=3", J{"type": "string", "enum": A{"a", "abcd"}, "minLength": 3}},
+		{"string-enum,max=2", J{"type": "string", "enum": A{"a", "abcd"}, "maxLength": 2}},
+		{"string-enum,pat=^abc", J{"type": "string", "enum": A{"a", "abcd"}, "pattern": "^abc"}},
+		{"string-date-time,max=5", J{"type": "string", "format": "date-time", "maxLength": 5}},
+		{"string-date,pat=^2024", J{"type": "string", "format": "date", "pattern": "^2024"}},
+		{"string-ipv4,min=12", J{"type": "string", "format": "ipv4", "minLength": 12}},
+		{"string,pat=^a<CR>b$", J{"type": "string", "pattern": "^a\rb$"}},
+	} {
+		l := sp.l
+		ax := map[string]string{"pos": "props", "leaf": sp.name}
+		out = append(out, SCase{ID: "C06/props/" + sp.name, Cfg: baseCfg(), Axes: ax,
+			Schema: J{"type": "object", "properties": J{"r": l, "o": l}, "required": A{"r"}}})
+		if _, isFmt := l["format"]; isFmt {
+			continue // a format-typed definition has no methods at all (KF-C02-1, C02's subject)
+		}
+		out = append(out, SCase{ID: "C06/def/" + sp.name, Cfg: baseCfg(), Axes: map[string]string{"pos": "def", "leaf": sp.name},
+			Schema: J{"type": "object", "properties": J{"d": J{"$ref": "#/$defs/D"}, "do": J{"$ref": "#/$defs/D"}}, "required": A{"d"}, "$defs": J{"D": l}}})
 	}
 	// two schemas that map to the same Go type name and differ only in a string constraint: each keeps its own
 	for i, pair := range [][2]J{{{"minLength": 2}, {"minLength": 4}}, {{"maxLength": 3}, {"maxLength": 5}}, {{"pattern": "^a"}, {"pattern": "^b"}}, {{"minLength": 2}, {}}} {
